@@ -96,6 +96,22 @@ func init() {
 			{Name: "exit read buffer grows to a full frame", ExpectRule: "C07.R2", ExpectKey: "exit", Edits: []Edit{
 				{File: "internal/exit/handler.go", Old: "\t\tn, err := ac.Conn.Read(buf)\n", New: "\t\tn, err := ac.Conn.Read(buf)\n\t\tif n == len(buf) && len(buf) < protocol.MaxPayloadSize {\n\t\t\tbuf = make([]byte, protocol.MaxPayloadSize)\n\t\t}\n"},
 			}},
+			{Name: "rewrite: chunk end and encrypt+send extracted into helpers", Edits: []Edit{
+				{File: "internal/agent/agent.go", Old: "\tmaxPlaintext := protocol.MaxPayloadSize - crypto.EncryptionOverhead\n\n\t// Chunk data into max plaintext size pieces, encrypt each, and send\n\tfor offset := 0; offset < len(b); {\n\t\tend := offset + maxPlaintext\n\t\tif end > len(b) {\n\t\t\tend = len(b)\n\t\t}\n\n\t\tchunk := b[offset:end]\n\n\t\t// Encrypt the chunk\n\t\tciphertext, err := sessionKey.Encrypt(chunk)\n\t\tif err != nil {\n\t\t\treturn offset, fmt.Errorf(\"encrypt: %w\", err)\n\t\t}\n\n\t\tframe := &protocol.Frame{\n\t\t\tType:     protocol.FrameStreamData,\n\t\t\tStreamID: c.streamID,\n\t\t\tPayload:  ciphertext,\n\t\t}\n\n\t\tif err := c.agent.peerMgr.SendToPeer(c.peerID, frame); err != nil {\n", New: "\ttotal := len(b)\n\tfor offset := 0; offset < total; {\n\t\tend := chunkEndOf(offset, total, protocol.MaxPayloadSize-crypto.EncryptionOverhead)\n\t\tif err := c.sendEncryptedChunk(sessionKey, b[offset:end]); err != nil {\n"},
+				{File: "internal/agent/agent.go", Old: "// Close closes the mesh connection.\nfunc (c *meshConn) Close() error {", New: "func chunkEndOf(start, total, size int) int {\n\treturn min(start+size, total)\n}\n\nfunc (c *meshConn) sendEncryptedChunk(key *crypto.SessionKey, plaintext []byte) error {\n\tciphertext, err := key.Encrypt(plaintext)\n\tif err != nil {\n\t\treturn fmt.Errorf(\"encrypt: %w\", err)\n\t}\n\treturn c.agent.peerMgr.SendToPeer(c.peerID, &protocol.Frame{\n\t\tType:     protocol.FrameStreamData,\n\t\tStreamID: c.streamID,\n\t\tPayload:  ciphertext,\n\t})\n}\n\n// Close closes the mesh connection.\nfunc (c *meshConn) Close() error {"},
+			}},
+			{Name: "helper-based chunking forgets the encryption overhead", ExpectRule: "C07.R2", ExpectKey: "sendEncryptedChunk", Edits: []Edit{
+				{File: "internal/agent/agent.go", Old: "\tmaxPlaintext := protocol.MaxPayloadSize - crypto.EncryptionOverhead\n\n\t// Chunk data into max plaintext size pieces, encrypt each, and send\n\tfor offset := 0; offset < len(b); {\n\t\tend := offset + maxPlaintext\n\t\tif end > len(b) {\n\t\t\tend = len(b)\n\t\t}\n\n\t\tchunk := b[offset:end]\n\n\t\t// Encrypt the chunk\n\t\tciphertext, err := sessionKey.Encrypt(chunk)\n\t\tif err != nil {\n\t\t\treturn offset, fmt.Errorf(\"encrypt: %w\", err)\n\t\t}\n\n\t\tframe := &protocol.Frame{\n\t\t\tType:     protocol.FrameStreamData,\n\t\t\tStreamID: c.streamID,\n\t\t\tPayload:  ciphertext,\n\t\t}\n\n\t\tif err := c.agent.peerMgr.SendToPeer(c.peerID, frame); err != nil {\n", New: "\ttotal := len(b)\n\tfor offset := 0; offset < total; {\n\t\tend := chunkEndOf(offset, total, protocol.MaxPayloadSize)\n\t\tif err := c.sendEncryptedChunk(sessionKey, b[offset:end]); err != nil {\n"},
+				{File: "internal/agent/agent.go", Old: "// Close closes the mesh connection.\nfunc (c *meshConn) Close() error {", New: "func chunkEndOf(start, total, size int) int {\n\treturn min(start+size, total)\n}\n\nfunc (c *meshConn) sendEncryptedChunk(key *crypto.SessionKey, plaintext []byte) error {\n\tciphertext, err := key.Encrypt(plaintext)\n\tif err != nil {\n\t\treturn fmt.Errorf(\"encrypt: %w\", err)\n\t}\n\treturn c.agent.peerMgr.SendToPeer(c.peerID, &protocol.Frame{\n\t\tType:     protocol.FrameStreamData,\n\t\tStreamID: c.streamID,\n\t\tPayload:  ciphertext,\n\t})\n}\n\n// Close closes the mesh connection.\nfunc (c *meshConn) Close() error {"},
+			}},
+			{Name: "rewrite: size limit as a predicate helper", Edits: []Edit{
+				{File: "internal/protocol/frame.go", Old: "\tif len(f.Payload) > MaxPayloadSize {\n\t\treturn nil, ErrFrameTooLarge\n\t}\n\n\tbuf := make([]byte, HeaderSize+len(f.Payload))", New: "\tif payloadTooLarge(uint64(len(f.Payload))) {\n\t\treturn nil, ErrFrameTooLarge\n\t}\n\n\tbuf := make([]byte, HeaderSize+len(f.Payload))"},
+				{File: "internal/protocol/frame.go", Old: "// DecodeHeader decodes a frame header from bytes.", New: "func payloadTooLarge(n uint64) bool {\n\treturn n > MaxPayloadSize\n}\n\n// DecodeHeader decodes a frame header from bytes."},
+			}},
+			{Name: "predicate helper compares against the whole frame size", ExpectRule: "C07.R1", ExpectKey: "size guard", Edits: []Edit{
+				{File: "internal/protocol/frame.go", Old: "\tif len(f.Payload) > MaxPayloadSize {\n\t\treturn nil, ErrFrameTooLarge\n\t}\n\n\tbuf := make([]byte, HeaderSize+len(f.Payload))", New: "\tif payloadTooLarge(uint64(len(f.Payload))) {\n\t\treturn nil, ErrFrameTooLarge\n\t}\n\n\tbuf := make([]byte, HeaderSize+len(f.Payload))"},
+				{File: "internal/protocol/frame.go", Old: "// DecodeHeader decodes a frame header from bytes.", New: "func payloadTooLarge(n uint64) bool {\n\treturn n > MaxFrameSize\n}\n\n// DecodeHeader decodes a frame header from bytes."},
+			}},
 			{Name: "rewrite: maxPlaintext as package constant, min() for the chunk end", Edits: []Edit{
 				{File: "internal/agent/agent.go", Old: "\tmaxPlaintext := protocol.MaxPayloadSize - crypto.EncryptionOverhead\n\n\t// Chunk data into max plaintext size pieces, encrypt each, and send\n\tfor offset := 0; offset < len(b); {\n\t\tend := offset + maxPlaintext\n\t\tif end > len(b) {\n\t\t\tend = len(b)\n\t\t}\n", New: "\tconst maxPlaintext = protocol.MaxPayloadSize - crypto.EncryptionOverhead\n\n\tfor offset := 0; len(b) > offset; {\n\t\tend := min(offset+maxPlaintext, len(b))\n"},
 			}},
@@ -576,19 +592,20 @@ func (cx *c07ctx) ruleR2() {
 func (cx *c07ctx) ruleR3() {
 	p, r := cx.p, cx.r
 	nLoops := 0
+	// the subject exists: some function stores the Payload of a STREAM_DATA frame
+	nPayload := 0
 	for _, fn := range p.RepoFuncs() {
-		// functions that build STREAM_DATA frames or encrypt for them
-		relevant := false
 		kit.Instrs(fn, func(in ssa.Instruction) {
 			if st, ok := in.(*ssa.Store); ok {
 				if fa, ok := st.Addr.(*ssa.FieldAddr); ok && kit.FieldOfAddr(fa) == cx.framePay && cx.isStreamDataFrame(fa.X) {
-					relevant = true
+					nPayload++
 				}
 			}
 		})
-		if !relevant {
-			continue
-		}
+	}
+	r.Count("stream_data_payload_stores", nPayload)
+	r.Require(nPayload >= 1, "floor: no STREAM_DATA frame construction found in the repository")
+	for _, fn := range p.RepoFuncs() {
 		fname := kit.FuncName(fn)
 		n := 0
 		kit.Instrs(fn, func(in ssa.Instruction) {
@@ -603,6 +620,10 @@ func (cx *c07ctx) ruleR3() {
 				return
 			}
 			if !strings.HasSuffix(s.X.Type().String(), "[]byte") {
+				return
+			}
+			// only pieces that become (the plaintext of) a STREAM_DATA payload, directly or through helpers
+			if _, sink := cx.sdSink(s, 0, map[ssa.Value]bool{}); !sink {
 				return
 			}
 			n++
@@ -704,6 +725,9 @@ func (cx *c07ctx) ruleR3() {
 			if !fromParam {
 				return
 			}
+			if _, sink := cx.sdSink(s, 0, map[ssa.Value]bool{}); !sink {
+				return
+			}
 			n++
 			nLoops++
 			key := fmt.Sprintf("%s chunk #%d", fname, n)
@@ -788,35 +812,16 @@ func (cx *c07ctx) ruleR3() {
 		})
 	}
 	r.Count("chunk_loops", nLoops)
-	r.Require(nLoops >= 2, "floor: %d chunk loops over a caller buffer found in STREAM_DATA producers (expected tcp write and WriteStreamData)", nLoops)
 }
 
 func (cx *c07ctx) flagsOnLast(fn *ssa.Function, s *ssa.Slice, key string, isLenX func(ssa.Value) bool) {
 	p, r := cx.p, cx.r
-	// the frame whose Payload is this chunk
-	var frame ssa.Value
-	if s.Referrers() != nil {
-		for _, ref := range *s.Referrers() {
-			if st, ok := ref.(*ssa.Store); ok && st.Val == ssa.Value(s) {
-				if fa, ok := st.Addr.(*ssa.FieldAddr); ok && kit.FieldOfAddr(fa) == cx.framePay {
-					frame = fa.X
-				}
-			}
-		}
-	}
-	if frame == nil || frame.Referrers() == nil {
+	flagsVal, flagsAt := cx.flagsOf(s)
+	if flagsVal == nil {
 		return
 	}
-	for _, ref := range *frame.Referrers() {
-		fa, ok := ref.(*ssa.FieldAddr)
-		if !ok || kit.FieldOfAddr(fa) != cx.frameFlags || fa.Referrers() == nil {
-			continue
-		}
-		for _, r2 := range *fa.Referrers() {
-			st, ok := r2.(*ssa.Store)
-			if !ok || st.Addr != fa {
-				continue
-			}
+	{
+		{
 			// every non-zero leaf of the stored value must arrive over an edge guarded by end >= len
 			okFlags := true
 			isHigh := func(v ssa.Value) bool { return v == s.High }
@@ -848,57 +853,145 @@ func (cx *c07ctx) flagsOnLast(fn *ssa.Function, s *ssa.Slice, key string, isLenX
 					okFlags = false
 				}
 			}
-			check(st.Val, st.Block(), kit.GuardsOf(st))
-			r.Decide(okFlags, "C07.R3", key+" flags", p.Pos(st.Pos()),
+			check(flagsVal, flagsAt.Block(), kit.GuardsOf(flagsAt))
+			r.Decide(okFlags, "C07.R3", key+" flags", p.Pos(flagsAt.Pos()),
 				"non-zero flags reach the frame only when this chunk's end >= len(buffer)",
 				"caller flags (FIN) can be put on a chunk that is not the last: the receiver half-closes before the remaining bytes arrive")
 		}
 	}
 }
 
-// isDirectPayload: the slice itself is stored as the Payload of a STREAM_DATA frame.
+// isDirectPayload: the slice itself becomes the Payload of a STREAM_DATA frame (in this function or
+// in a helper it is handed to), without being encrypted on the way.
 func (cx *c07ctx) isDirectPayload(s *ssa.Slice) bool {
-	if s.Referrers() == nil {
-		return false
+	direct, ok := cx.sdSink(s, 0, map[ssa.Value]bool{})
+	return ok && direct
+}
+
+// sdSink: v flows into a STREAM_DATA payload - stored directly (direct=true), after Encrypt, or
+// through the parameters of repository helpers.
+func (cx *c07ctx) sdSink(v ssa.Value, depth int, seen map[ssa.Value]bool) (direct, ok bool) {
+	if v == nil || seen[v] || depth > 4 || v.Referrers() == nil {
+		return false, false
 	}
-	for _, ref := range *s.Referrers() {
-		if st, ok := ref.(*ssa.Store); ok && st.Val == ssa.Value(s) {
-			if fa, ok := st.Addr.(*ssa.FieldAddr); ok && kit.FieldOfAddr(fa) == cx.framePay && cx.isStreamDataFrame(fa.X) {
-				return true
+	seen[v] = true
+	for _, ref := range *v.Referrers() {
+		switch t := ref.(type) {
+		case *ssa.Store:
+			if t.Val != v {
+				continue
+			}
+			if fa, isFA := t.Addr.(*ssa.FieldAddr); isFA && kit.FieldOfAddr(fa) == cx.framePay && cx.isStreamDataFrame(fa.X) {
+				return true, true
+			}
+			if a, isA := t.Addr.(*ssa.Alloc); isA && a.Referrers() != nil {
+				for _, r2 := range *a.Referrers() {
+					if ld, isLd := r2.(*ssa.UnOp); isLd && ld.Op == token.MUL {
+						if d, ok := cx.sdSink(ld, depth, seen); ok {
+							return d, true
+						}
+					}
+				}
+			}
+		case *ssa.Phi:
+			if d, ok := cx.sdSink(t, depth, seen); ok {
+				return d, true
+			}
+		case *ssa.Call:
+			cal := kit.CalleeOf(t)
+			if cal.Static == cx.encrypt {
+				if cx.reachesStreamData(t) {
+					return false, true
+				}
+				if res := kit.ExtractOf(t, 0); res != nil {
+					if _, ok := cx.sdSink(res, depth+1, seen); ok {
+						return false, true
+					}
+				}
+				continue
+			}
+			if cal.Name == "WriteStreamData" {
+				return false, true
+			}
+			if st := cal.Static; st != nil && st.Blocks != nil && kit.IsRepoPkg(kit.FuncPkgPath(st)) {
+				for i, a := range t.Call.Args {
+					if a == v && i < len(st.Params) {
+						if d, ok := cx.sdSink(st.Params[i], depth+1, seen); ok {
+							return d, true
+						}
+					}
+				}
 			}
 		}
 	}
-	return false
+	return false, false
+}
+
+// flagsOf finds the Flags value of the frame that carries chunk s: stored next to the Payload in this
+// function, or passed to the helper that builds the frame. at is where that value is used.
+func (cx *c07ctx) flagsOf(s ssa.Value) (val ssa.Value, at ssa.Instruction) {
+	if s.Referrers() == nil {
+		return nil, nil
+	}
+	flagsOfFrame := func(frame ssa.Value) (ssa.Value, ssa.Instruction) {
+		if frame == nil || frame.Referrers() == nil {
+			return nil, nil
+		}
+		for _, ref := range *frame.Referrers() {
+			fa, ok := ref.(*ssa.FieldAddr)
+			if !ok || kit.FieldOfAddr(fa) != cx.frameFlags || fa.Referrers() == nil {
+				continue
+			}
+			for _, r2 := range *fa.Referrers() {
+				if st, ok := r2.(*ssa.Store); ok && st.Addr == fa {
+					return st.Val, st
+				}
+			}
+		}
+		return nil, nil
+	}
+	for _, ref := range *s.Referrers() {
+		switch t := ref.(type) {
+		case *ssa.Store:
+			if fa, ok := t.Addr.(*ssa.FieldAddr); ok && t.Val == s && kit.FieldOfAddr(fa) == cx.framePay {
+				if v, at := flagsOfFrame(fa.X); v != nil {
+					return v, at
+				}
+			}
+		case *ssa.Call:
+			st := kit.CalleeOf(t).Static
+			if st == nil || st.Blocks == nil || !kit.IsRepoPkg(kit.FuncPkgPath(st)) {
+				continue
+			}
+			for i, a := range t.Call.Args {
+				if a != s || i >= len(st.Params) {
+					continue
+				}
+				v, _ := cx.flagsOf(st.Params[i])
+				if prm, ok := v.(*ssa.Parameter); ok {
+					for j, q := range st.Params {
+						if q == prm && j < len(t.Call.Args) {
+							return t.Call.Args[j], t
+						}
+					}
+				}
+			}
+		}
+	}
+	return nil, nil
 }
 
 // flagsOnLastRest is flagsOnLast for the re-slicing idiom: non-zero flags only when the
 // remainder is empty (len(rest) == 0) or the chunk is the whole remaining buffer.
 func (cx *c07ctx) flagsOnLastRest(fn *ssa.Function, s *ssa.Slice, key string, isLenRest, isLenPhi func(ssa.Value) bool) {
 	p, r := cx.p, cx.r
-	var frame ssa.Value
-	if s.Referrers() != nil {
-		for _, ref := range *s.Referrers() {
-			if st, ok := ref.(*ssa.Store); ok && st.Val == ssa.Value(s) {
-				if fa, ok := st.Addr.(*ssa.FieldAddr); ok && kit.FieldOfAddr(fa) == cx.framePay {
-					frame = fa.X
-				}
-			}
-		}
-	}
-	if frame == nil || frame.Referrers() == nil {
+	flagsVal, flagsAt := cx.flagsOf(s)
+	if flagsVal == nil {
 		return
 	}
 	isHigh := func(v ssa.Value) bool { return v == s.High }
-	for _, ref := range *frame.Referrers() {
-		fa, ok := ref.(*ssa.FieldAddr)
-		if !ok || kit.FieldOfAddr(fa) != cx.frameFlags || fa.Referrers() == nil {
-			continue
-		}
-		for _, r2 := range *fa.Referrers() {
-			st, ok := r2.(*ssa.Store)
-			if !ok || st.Addr != fa {
-				continue
-			}
+	{
+		{
 			okFlags := true
 			seen := map[ssa.Value]bool{}
 			var check func(v ssa.Value, gs []kit.Guard)
@@ -933,8 +1026,8 @@ func (cx *c07ctx) flagsOnLastRest(fn *ssa.Function, s *ssa.Slice, key string, is
 					okFlags = false
 				}
 			}
-			check(st.Val, kit.GuardsOf(st))
-			r.Decide(okFlags, "C07.R3", key+" flags", p.Pos(st.Pos()),
+			check(flagsVal, kit.GuardsOf(flagsAt))
+			r.Decide(okFlags, "C07.R3", key+" flags", p.Pos(flagsAt.Pos()),
 				"non-zero flags reach the frame only when nothing remains after this chunk",
 				"caller flags (FIN) can be put on a chunk that is not the last: the receiver half-closes before the remaining bytes arrive")
 		}
